@@ -2,8 +2,8 @@
 from fractions import Fraction
 from .conds import PT, alpha
 
-UNITS = ['pt', 'cm', 'mm', 'in', 'pc', 'bp']
-LENGTHS = [('3cm', Fraction(3) * PT['cm']), ('10pt', Fraction(10)), ('0pt', Fraction(0)), ('2.5mm', Fraction(5, 2) * PT['mm']), ('7pt', Fraction(7))]
+UNITS = ['pt', 'cm', 'mm', 'in', 'pc', 'bp', 'dd', 'cc', 'pt', 'mm']
+LENGTHS = [('3cm', Fraction(3) * PT['cm']), ('10pt', Fraction(10)), ('0pt', Fraction(0)), ('2.5mm', Fraction(5, 2) * PT['mm']), ('7pt', Fraction(7)), ('1cc', PT['cc']), ('3dd', 3 * PT['dd'])]
 
 
 class BoolGen(object):
